@@ -407,20 +407,30 @@ var vASCII = func() string {
 // ---------------------------------------------------------------- builders with holes
 
 type vHoles struct {
-	n    int
-	lmin int
-	lmax int
+	n      int
+	lmin   int
+	lmax   int
+	digits int // maximal number of digits of integer holes (default 2)
+	alpha  string
 }
 
 func (h *vHoles) text() *vRef {
-	b := vNondetBytes("L"+vItoa(h.n), h.lmin, h.lmax, vLitAlpha)
+	alpha := vLitAlpha
+	if h.alpha != "" {
+		alpha = h.alpha
+	}
+	b := vNondetBytes("L"+vItoa(h.n), h.lmin, h.lmax, alpha)
 	h.n++
 	return &vRef{node: rText, text: b}
 }
 
 // num: a 1..2 digit decimal literal with symbolic digits
 func (h *vHoles) num() *vRef {
-	d := vNondetBytes("N"+vItoa(h.n), 1, 2, "0123456789")
+	nd := 2
+	if h.digits > 0 {
+		nd = h.digits
+	}
+	d := vNondetBytes("N"+vItoa(h.n), 1, nd, "0123456789")
 	h.n++
 	// no leading zeros are needed for value; the text is what the lexer sees
 	return &vRef{node: rNum, num: vDecimalValue(d), numTxt: string(d)}
@@ -458,7 +468,7 @@ var vOps7 = []string{"=", "!=", "^=", ">", ">=", "<", "<="}
 var vOps6 = []string{"=", "!=", ">", ">=", "<", "<="}
 
 // vNumAtomsC01 atoms of the documented core language (regexp excluded)
-const vNumAtomsC01 = 52
+const vNumAtomsC01 = 60
 
 func vAtomC01(i int, h *vHoles) *vRef {
 	switch {
@@ -508,6 +518,22 @@ func vAtomC01(i int, h *vHoles) *vRef {
 		return vCmp("=", vKeyRef(), vValueRef())
 	case i == 51:
 		return vCmp("<", vArith("*", vFn("int", vValueRef()), &vRef{node: rNum, num: 3, numTxt: "3"}), h.num())
+	case i == 52: // text concatenation chains with several literals (constant folding and re-association)
+		return vCmp("=", vConcat(vConcat(vKeyRef(), h.text()), h.text()), vValueRef())
+	case i == 53:
+		return vCmp("=", vConcat(vConcat(h.text(), vKeyRef()), h.text()), vValueRef())
+	case i == 54:
+		return vCmp("=", vKeyRef(), vConcat(vConcat(h.text(), h.text()), h.text()))
+	case i == 55:
+		return vCmp("^=", vValueRef(), vConcat(vConcat(vKeyRef(), h.text()), h.text()))
+	case i == 56: // integer chains with several literals
+		return vCmp("=", vArith("+", vArith("+", vFn("int", vValueRef()), h.num()), h.num()), h.num())
+	case i == 57:
+		return vCmp(">", vArith("-", vArith("-", vFn("int", vValueRef()), h.num()), h.num()), vNumConst(0))
+	case i == 58:
+		return vCmp("=", vArith("+", vArith("+", h.num(), vFn("int", vValueRef())), h.num()), h.num())
+	case i == 59:
+		return vCmp("<", vArith("*", vArith("*", vFn("int", vValueRef()), vNumConst(2)), vNumConst(3)), h.num())
 	}
 	return &vRef{node: rTrue}
 }
